@@ -526,6 +526,17 @@ func checkC03(in *exInput) []exFinding {
 		if o.Abs && docPart != t.Doc {
 			fs = append(fs, exFinding{Shape: exShape("ref-rendering", g, o.Abs, top), What: where + " is not an absolute canonical URL (AbsoluteCircularRef)", Obs: h.Ref, Exp: t.String()})
 		}
+		if ru, e1 := url.Parse(g.Root); !o.Abs && e1 == nil && t.Doc != g.Root {
+			if hu, e2 := url.Parse(h.Ref); e2 == nil && hu.Scheme != "" && strings.EqualFold(hu.Scheme, ru.Scheme) && hu.Host == ru.Host &&
+				strings.HasPrefix(hu.Path, path.Dir(ru.Path)+"/") {
+				// (a document outside the root's folder is written with its absolute path, scheme and host: the library's stated rule)
+				shape := exShape("ref-rendering", g, o.Abs, top)
+				if hu.Fragment == "" && shape == "ref-rendering" {
+					shape = "ref-rendering:absolute-whole-document" // what the library writes for `"$ref": "#"` (finding F26)
+				}
+				fs = append(fs, exFinding{Shape: shape, What: where + " is an absolute URL although AbsoluteCircularRef is off and the document lies below the folder of the root", Obs: h.Ref})
+			}
+		}
 		if !o.Abs && t.Doc == g.Root && !strings.HasPrefix(h.Ref, "#") {
 			fs = append(fs, exFinding{Shape: exShape("ref-rendering", g, o.Abs, top), What: where + " points into the root document but is not fragment-only", Obs: h.Ref, Exp: "#" + t.Ptr})
 		}
@@ -628,6 +639,12 @@ func checkC04(in *exInput) []exFinding {
 
 // exMustFail: does the traversal from the root's elements meet an unresolvable reference?
 func exMustFail(info *exInfo, followSchemas bool) (bool, string) {
+	return exMustFailBut(info, followSchemas, false)
+}
+
+// exMustFailBut: the same, optionally without passing through the holders that designate their own document as a whole
+// (`"$ref": "#"` and `"$ref": ""`).
+func exMustFailBut(info *exInfo, followSchemas, skipSelf bool) (bool, string) {
 	seen := map[string]bool{}
 	var visit func(k string) (bool, string)
 	visit = func(k string) (bool, string) {
@@ -641,6 +658,9 @@ func exMustFail(info *exInfo, followSchemas bool) (bool, string) {
 		}
 		for i, h := range n.Holders {
 			if h.Kind == exSchema && !followSchemas {
+				continue
+			}
+			if skipSelf && exLibRef(h.Ref) == "" {
 				continue
 			}
 			if b, w := visit(n.Out[i]); b {
@@ -715,6 +735,10 @@ func checkC08(in *exInput) []exFinding {
 				// the pointer passes THROUGH a `$ref` holder: nothing is there in the document, but ExpandSpec works on the root
 				// in place and may already have replaced that holder by its target when the reference is resolved (finding F24)
 				shape = "silent-failure:pointer-through-ref"
+			} else if m2, _ := exMustFailBut(info, !skip, true); !m2 {
+				// the unresolvable reference is reachable only through a `"$ref": "#"` (the whole of the current document), which
+				// the library never follows (finding F26)
+				shape = "silent-failure:behind-self-ref"
 			}
 			fs = append(fs, exFinding{Shape: shape, What: fmt.Sprintf("skip=%v: no error although %s has to be followed and cannot be resolved", skip, witness)})
 		}
@@ -1058,6 +1082,25 @@ func checkC10(in *exInput) []exFinding {
 		}); leak != "" {
 			fs = append(fs, exFinding{Shape: exShape("entry-pseudo-root-leaks", g, o.Abs, in.Pointer), What: in.Op + " (" + in.Entry + "): a `$ref` left in the result names the library's internal pseudo location of the root instead of being fragment-only", Obs: leak})
 			return fs
+		}
+	}
+	if !o.Skip {
+		// completeness, as for whole-specification expansion (C03): a `$ref` is left only at a node of a reference cycle
+		info := g.analyse()
+		for _, h := range exHolders(loc, kind, exDecode(res.Out), nil) {
+			t, ok := exCanonRef(loc, h.Ref)
+			if !ok {
+				continue
+			}
+			if t.Doc == loc {
+				t.Doc = g.Root
+			}
+			n := info.Nodes[t.String()]
+			if info.Acyclic || n == nil || !n.OnCycle {
+				fs = append(fs, exFinding{Shape: exShape("entry-ref-not-on-cycle:"+in.Entry, g, o.Abs, in.Pointer),
+					What: fmt.Sprintf("%s (%s): `$ref` %q left at %s designates a node that is on no reference cycle of the input", in.Op, in.Entry, h.Ref, h.ptr()), Obs: t.String()})
+				return fs
+			}
 		}
 	}
 	got := s.unfold(loc, exDecode(res.Out), kind, exDepth)
